@@ -44,6 +44,10 @@ def pool(tier):
         ('bundle', D({'h': 1000., 'n': 40, 'pattern': 'rampup'}, {'h': 1210., 'n': 40, 'pattern': 'rampup'}), {}),
         ('all-vv-high', rows([['a', 0.0 - 15. * i, 20000., -1] for i in range(5)]), {'MSA': 10000}),
         # only higher hits, all cropped: the chunk is left without a single row
+        # MSA crop that removes second hits in the middle of the table (index gaps) + VV hits
+        ('msa-gaps-vv', rows([x for i in range(12) for x in ([['a', 0.0 - 15. * (11 - i), 1000. + 20 * (i % 4), 1]]
+                                                              + ([['a', 0.0 - 15. * (11 - i), 9000., 2]] if i % 3 == 0 else [])
+                                                              + [['b', 0.0 - 15. * (11 - i), 300. + 5 * i, -1]])]), {'MSA': 3000, 'MSA_HIT_BUFFER': 0}),
         ('all-cropped', rows([['a', -15., 5000., 2], ['a', 0., 5200., 2]]), {'MSA': 1500}),
     ]
     wn = scenes.witness_names()
@@ -102,11 +106,19 @@ def cross_pool():
         ('site-x11ceilos', {'gen': 'rows', 'rows': rows(['c%02d' % k for k in range(11)], 1500.)}, {}),
         ('site-msa-gaps', D({'h': 1000., 'n': 20, 'pattern': 'rampup'}, {'h': 1210., 'n': 20, 'pattern': 'rampup'}, {'h': 9000., 'n': 8, 'where': 'first'},
                             T=20, ceilos=['X-1', 'X-9']), {'MSA': 3000, 'MSA_HIT_BUFFER': 0}),
+        ('site-gaps-vv', {'gen': 'rows', 'rows': [x for i in range(10) for x in ([['X-1', 0.0 - 15. * i, 1000. + 10 * i, 1]] + ([['X-1', 0.0 - 15. * i, 9000., 2]] if i % 2 else [])
+                                                                                 + [['X-4', 0.0 - 15. * i, 400., -1]])]}, {'MSA': 3000, 'MSA_HIT_BUFFER': 0}),
     ]
+
+
+STEP_GLOB = {'SLICING_PRMS': {'height_scale_mode': 'step-scale', 'height_scale_kwargs': {'steps': [8000, 14000], 'scales': [100, 500, 1000]}}}
 
 
 def cases(tier):
     out = [{'name': n, 'scene': s, 'prms': p, 'tier': tier} for n, s, p in pool(tier)]
+    p0 = pool(tier)
+    out.append({'name': 'global-step-scale', 'scene': p0[6][1], 'prms': p0[6][2], 'tier': tier, 'glob': STEP_GLOB})
+    out.append({'name': 'plot-under-other-global', 'scene': p0[6][1], 'prms': p0[6][2], 'tier': tier, 'plot_glob': STEP_GLOB})
     n = len(cross_pool())
     for first in range(n):
         out.append({'cross': True, 'first': first, 'name': 'cross-%d' % first, 'scene': {}, 'prms': {}, 'tier': tier})
@@ -139,7 +151,13 @@ def run_case(case):
     rows = scenes.build(case['scene'])
     with warnings.catch_warnings():
         warnings.simplefilter('ignore')
-        chunk = ampycloud.run(scenes.frame(rows), prms=copy.deepcopy(case['prms']) or None, geoloc='Somewhere_x', ref_dt='2020-01-01 00:00:00')
+        if case.get('glob'):
+            # the chunk is processed while the GLOBAL parameters select another height scaling mode; the global is reset before plotting
+            pipeline.set_global(case['glob'])
+        try:
+            chunk = ampycloud.run(scenes.frame(rows), prms=copy.deepcopy(case['prms']) or None, geoloc='Somewhere_x', ref_dt='2020-01-01 00:00:00')
+        finally:
+            ampycloud.reset_prms()
     tmpd = tempfile.mkdtemp(prefix='mc_c20_')
     feature = []
     if (chunk.data['type'] == -1).any():
@@ -169,11 +187,16 @@ def run_case(case):
             kw['ref_metar'], kw['ref_metar_origin'] = m['ref']
         bad = []
         try:
+            if case.get('plot_glob'):
+                pipeline.set_global(case['plot_glob'])     # the global moved on to another configuration since the chunk was processed
             with warnings.catch_warnings():
                 warnings.simplefilter('ignore')
                 diagnostic(chunk, **kw)
         except Exception as e:
             bad.append(('C20.no_exception', {'raised': f'{type(e).__name__}: {str(e)[:200]}', 'at': pipeline.innermost_ampycloud_frame(e.__traceback__)}))
+        finally:
+            if case.get('plot_glob'):
+                ampycloud.reset_prms()
         res['n'] += 1
         res['extra']['transitions'] += 1
         for c in ['C20.no_exception', 'C20.chunk_untouched', 'C20.rcparams', 'C20.figures', 'C20.files'] + feature:
